@@ -559,8 +559,9 @@ def values_equal(a, b, atol=0.0):
         aa = np.asarray(a)
         bb = np.asarray(b)
     except ValueError:
-        return False
-    if aa.dtype == object or bb.dtype == object:
+        # ragged nesting: compare item by item
+        aa = bb = None
+    if aa is None or aa.dtype == object or bb.dtype == object:
         la = a.tolist() if isinstance(a, np.ndarray) else list(a)
         lb = b.tolist() if isinstance(b, np.ndarray) else list(b)
         return len(la) == len(lb) and all(values_equal(x, y, atol) for x, y in zip(la, lb))
